@@ -129,6 +129,14 @@ var vfC01Shapes = [][2]string{
 	{"MULTIPOLYGON(((0 0,3 0,3 3,0 3,0 0)),((5 5,9 5,9 9,5 9,5 5),(6 6,8 6,8 8,6 8,6 6)))", "POLYGON((2 2,7 2,7 7,2 7,2 2))"},
 	{"GEOMETRYCOLLECTION(POLYGON((0 0,4 0,4 4,0 4,0 0)),LINESTRING(2 2,6 2),POINT(8 8),POINT(1 1))", "GEOMETRYCOLLECTION(POLYGON((3 1,7 1,7 3,3 3,3 1)),POINT(8 8),POINT(2 5))"},
 	{"MULTIPOINT(1 1,4 2,9 9,5 5)", "POLYGON((0 0,4 0,4 4,0 4,0 0))"},
+	// a line that touches itself, duplicate points, collinear ring vertices at a crossing,
+	// nested collections, a closed line cut by a polygon, two polygons touching at a covered point
+	{"LINESTRING(0 0,4 0,4 4,2 0,2 -2)", "POLYGON((1 -1,3 -1,3 1,1 1,1 -1))"},
+	{"MULTIPOINT(1 1,1 1,2 2)", "LINESTRING(0 0,3 3)"},
+	{"POLYGON((0 0,2 0,4 0,4 4,2 4,0 4,0 0))", "POLYGON((2 -2,6 -2,6 2,2 2,2 -2))"},
+	{"GEOMETRYCOLLECTION(GEOMETRYCOLLECTION(POLYGON((0 0,2 0,2 2,0 2,0 0))),GEOMETRYCOLLECTION(LINESTRING(1 1,5 1)))", "POLYGON((1 0,3 0,3 3,1 3,1 0))"},
+	{"LINESTRING(0 0,4 0,4 4,0 4,0 0)", "POLYGON((2 -1,6 -1,6 5,2 5,2 -1))"},
+	{"MULTIPOLYGON(((0 0,2 0,2 2,0 2,0 0)),((2 2,4 2,4 4,2 4,2 2)))", "POLYGON((1 1,3 1,3 3,1 3,1 1))"},
 	// operands that lie entirely on a coordinate axis (every X, or every Y, is zero)
 	{"POINT(0 1)", "POINT(0 2)"},
 	{"LINESTRING(0 0,0 1)", "LINESTRING(0 1,0 3)"},
